@@ -175,6 +175,12 @@ def compare_conn(ss, where, v, probes):
     if got_iso != iso:
         v.append(V('isolated', '%s: isolated buses %s, graph has %s' % (where, got_iso, iso), **sig))
         return False
+    # the addresses that g_islands / j_islands neutralise must be those of exactly the isolated buses of *this* check
+    na = sorted(int(k) for k in np.ravel(getattr(ss.Bus, 'islanded_a', [])))
+    nv = sorted(int(k) for k in np.ravel(getattr(ss.Bus, 'islanded_v', [])))
+    if na != sorted(int(ss.Bus.a.a[k]) for k in iso) or nv != sorted(int(ss.Bus.v.a[k]) for k in iso):
+        v.append(V('neutralised', '%s: isolated buses %s but the neutralised addresses are a=%s v=%s' % (where, iso, na, nv), **sig))
+        return False
     if sorted(got_sets) != comps:
         v.append(V('partition', '%s: island sets %s, connected components %s' % (where, sorted(got_sets)[:6], comps[:6]), **sig))
         return False
@@ -295,6 +301,11 @@ def run_dynamic(plan):
         if rec['islanded'] != iso or sorted(rec['island_sets']) != comps:
             v.append(V('partition', 'after the event at t=%.4f: islands %s / isolated %s, graph: %s / %s' %
                        (rec['t'], sorted(rec['island_sets'])[:5], rec['islanded'], comps[:5], iso), where='tds'))
+            break
+        if 'neutral_a' in rec and (rec['neutral_a'] != sorted(rec['bus_a'][k] for k in iso) or
+                                   rec['neutral_v'] != sorted(rec['bus_v'][k] for k in iso)):
+            v.append(V('neutralised', 'after the event at t=%.4f: isolated buses %s but the neutralised addresses are a=%s v=%s' %
+                       (rec['t'], iso, rec['neutral_a'], rec['neutral_v']), where='tds'))
             break
     probes['conn_after_event'] = n_after
     # every line-switching instant must have produced a re-check
